@@ -55,26 +55,33 @@ Definition write_slice (m : list bytes) : option bytes :=
 Definition read_length_bytes (b : bytes) : res N :=
   if lenN b <? 8 then Err else Ok (dec (firstn 8 b)).
 
-(* ReadLengthedBytes: guard uint64(len(b)-8) < i, then b[8:i+8], b[i+8:] (uint64 arithmetic wraps) *)
+(* ReadLengthedBytes: guard uint64(len(b)-8) < i, then b[8:i+8], b[i+8:] (uint64 arithmetic wraps).
+   n is len(b) (carried along so that evaluation does not recompute the length of the remaining buffer
+   for every item); the third component is len of the returned remainder. *)
+Definition read_lengthed_bytes_n (n : N) (b : bytes) : res (bytes * bytes * N) :=
+  if n <? 8 then Err (* ReadLengthBytes: missing length part *)
+  else
+    let i := dec (firstn 8 b) in
+    if (n - 8) <? i then Err
+    else
+      let hi := (i + 8) mod two64 in
+      if (hi <? 8) || (n <? hi) then Panic
+      else Ok (firstn (N.to_nat i) (skipn 8 b), skipn (N.to_nat hi) b, n - hi).
+
 Definition read_lengthed_bytes (b : bytes) : res (bytes * bytes) :=
-  match read_length_bytes b with
-  | Ok i =>
-      if (lenN b - 8) <? i then Err
-      else
-        let hi := (i + 8) mod two64 in
-        if (hi <? 8) || (lenN b <? hi) then Panic
-        else Ok (firstn (N.to_nat i) (skipn 8 b), skipn (N.to_nat hi) b)
+  match read_lengthed_bytes_n (lenN b) b with
+  | Ok (x, l, _) => Ok (x, l)
   | Err => Err
   | Panic => Panic
   end.
 
-Fixpoint read_items_buf (k : nat) (left : bytes) : res (list bytes * bytes) :=
+Fixpoint read_items_buf_n (k : nat) (n : N) (left : bytes) : res (list bytes * bytes) :=
   match k with
   | O => Ok ([], left)
   | S k' =>
-      match read_lengthed_bytes left with
-      | Ok (x, l') =>
-          match read_items_buf k' l' with
+      match read_lengthed_bytes_n n left with
+      | Ok (x, l', n') =>
+          match read_items_buf_n k' n' l' with
           | Ok (xs, r) => Ok (x :: xs, r)
           | Err => Err
           | Panic => Panic
@@ -84,11 +91,14 @@ Fixpoint read_items_buf (k : nat) (left : bytes) : res (list bytes * bytes) :=
       end
   end.
 
+Definition read_items_buf (k : nat) (left : bytes) := read_items_buf_n k (lenN left) left.
+
 (* ReadLengthedBytesSlice (fixed: a count above maxLengthBytes is an error) *)
 Definition read_slice_buf (b : bytes) : res (list bytes * bytes) :=
-  if lenN b <? 8 then Err
+  let n := lenN b in
+  if n <? 8 then Err
   else match read_length_bytes b with
-       | Ok i => if max_items <? i then Err else read_items_buf (N.to_nat i) (skipn 8 b)
+       | Ok i => if max_items <? i then Err else read_items_buf_n (N.to_nat i) (n - 8) (skipn 8 b)
        | Err => Err
        | Panic => Panic
        end.
@@ -105,23 +115,33 @@ Definition last_eof (cs' : list bytes) (e : ending) : bool :=
   | _, _ => false
   end.
 
+(* take up to n elements: (taken, remainder, number still missing); cost O(min(n, |c|)) *)
+Fixpoint splitN (c : bytes) (n : N) : bytes * bytes * N :=
+  match c with
+  | [] => ([], [], n)
+  | x :: c' =>
+      if n =? 0 then ([], c, 0)
+      else let '(a, b, m) := splitN c' (n - 1) in (x :: a, b, m)
+  end.
+
 (* EnsureRead with len(b) = need > 0: loop of Reads; every Read asks for the missing `need` bytes.
    Structural on the chunk list: a Read either consumes a whole chunk or fills the buffer. *)
 Fixpoint ensure_go (need : N) (cs : list bytes) (e : ending) : res (bytes * bool * reader) :=
   match cs with
   | [] => Err  (* (0, io.EOF) -> "insufficient read"; (0, err) -> err *)
   | c :: cs' =>
-      if lenN c <=? need then
-        let need' := need - lenN c in
-        let eof := last_eof cs' e in
-        if need' =? 0 then Ok (c, eof, mkR cs' e)       (* n == len(b): return n, err (nil or io.EOF) *)
-        else if eof then Err                             (* "insufficient read" *)
-        else match ensure_go need' cs' e with
-             | Ok (d, eof', r) => Ok (c ++ d, eof', r)
-             | Err => Err
-             | Panic => Panic
-             end
-      else Ok (firstn (N.to_nat need) c, false, mkR (skipn (N.to_nat need) c :: cs') e)
+      match splitN c need with
+      | (a, [], need') =>                                  (* the whole chunk fits: len(c) <= need *)
+          let eof := last_eof cs' e in
+          if need' =? 0 then Ok (a, eof, mkR cs' e)        (* n == len(b): return n, err (nil or io.EOF) *)
+          else if eof then Err                              (* "insufficient read" *)
+          else match ensure_go need' cs' e with
+               | Ok (d, eof', r) => Ok (a ++ d, eof', r)
+               | Err => Err
+               | Panic => Panic
+               end
+      | (a, rest, _) => Ok (a, false, mkR (rest :: cs') e)   (* the Read fills the buffer, the chunk is not exhausted *)
+      end
   end.
 
 (* EnsureRead(ctx, r, b) with a context that is never cancelled; result (bytes, err is io.EOF, reader) *)
